@@ -51,7 +51,7 @@ theorem decEs_encEs : ∀ es, okEs es = true → decEs (encEs es) = some es
 end
 
 mutual
-theorem decQ_encQ : ∀ q, okQ q = true → decQ (encQ q) = some (keptQ q)
+theorem decQ_encQ (cfg : Cfg) : ∀ q, okQ cfg q = true → decQ (encQ q) = some (keptQ q)
   | .equal l r, h => by
     have h' : okE l = true ∧ okE r = true := by simpa [okQ] using h
     simp [encQ, decQ, keptQ, decE_encE l h'.1, decE_encE r h'.2]
@@ -60,15 +60,16 @@ theorem decQ_encQ : ∀ q, okQ q = true → decQ (encQ q) = some (keptQ q)
     simp [encQ, decQ, keptQ, decEs_encEs args h']
   | .other k, h => by simp [okQ] at h
   | .when c b ec eb, h => by
-    have h' : (okE c = true ∧ okQs b = true) ∧ okEs ec = true ∧ okQs eb = true := by
-      simpa [okQ, and_assoc] using h
-    have ih := decQs_encQs b h'.1.2
-    simp [encQ, decQ, keptQ, decE_encE c h'.1.1, ih]
-theorem decQs_encQs : ∀ qs, okQs qs = true → decQs (encQs qs) = some (keptQs qs)
+    have h' : okE c = true ∧ okQs cfg b = true := by
+      simp only [okQ, Bool.and_eq_true] at h
+      exact ⟨h.1.1.1.1, h.1.1.1.2⟩
+    have ih := decQs_encQs cfg b h'.2
+    simp [encQ, decQ, keptQ, decE_encE c h'.1, ih]
+theorem decQs_encQs (cfg : Cfg) : ∀ qs, okQs cfg qs = true → decQs (encQs qs) = some (keptQs qs)
   | [], _ => rfl
   | q :: qs, h => by
-    have h' : okQ q = true ∧ okQs qs = true := by simpa [okQs] using h
-    simp [encQs, decQs, keptQs, decQ_encQ q h'.1, decQs_encQs qs h'.2]
+    have h' : okQ cfg q = true ∧ okQs cfg qs = true := by simpa [okQs] using h
+    simp [encQs, decQs, keptQs, decQ_encQ cfg q h'.1, decQs_encQs cfg qs h'.2]
 end
 
 theorem okAttr_okE (cfg : Cfg) (e : Expr) (h : okAttr cfg (some e) = true) : okE e = true := by
@@ -104,10 +105,10 @@ theorem decVar_encVar (cfg : Cfg) (v : Var) (h : okVar cfg v = true) : decVar (e
 
 theorem encVar_tag (v : Var) : ∃ a k, encVar v = .node "component" a k := ⟨_, _, rfl⟩
 
-theorem decBody_enc (cfg : Cfg) (qs : List Eqn) (hq : okQs qs = true) :
+theorem decBody_enc (cfg : Cfg) (qs : List Eqn) (hq : okQs cfg qs = true) :
     ∀ vs : List Var, vs.all (okVar cfg) = true →
       decBody (vs.map encVar ++ [.node "equation" [] (encQs qs)]) = some (vs.map keptVar, keptQs qs)
-  | [], _ => by simp [decBody, decQs_encQs qs hq]
+  | [], _ => by simp [decBody, decQs_encQs cfg qs hq]
   | v :: vs, h => by
     have h' : okVar cfg v = true ∧ vs.all (okVar cfg) = true := by simpa using h
     have ih := decBody_enc cfg qs hq vs h'.2
@@ -123,7 +124,7 @@ theorem decBody_enc (cfg : Cfg) (qs : List Eqn) (hq : okQs qs = true) :
       simp [decBody, hv, ih]
 
 theorem decCls_encCls (cfg : Cfg) (c : Cls) (h : okCls cfg c = true) : decCls (encCls c) = some (keptCls c) := by
-  have h' : c.vars.all (okVar cfg) = true ∧ okQs c.eqs = true := by simpa [okCls] using h
+  have h' : c.vars.all (okVar cfg) = true ∧ okQs cfg c.eqs = true := by simpa [okCls] using h
   simp [encCls, decCls, keptCls, decBody_enc cfg c.eqs h'.2 c.vars h'.1]
 
 theorem decClss_enc (cfg : Cfg) : ∀ cs : List Cls, cs.all (okCls cfg) = true →
@@ -191,5 +192,33 @@ theorem variabilityOf_spec (ps : List String) :
   by_cases h1 : "discrete" ∈ ps <;> by_cases h2 : "continuous" ∈ ps <;> by_cases h3 : "parameter" ∈ ps <;>
     by_cases h4 : "constant" ∈ ps <;> simp [List.find?, h1, h2, h3, h4]
 
+
+mutual
+theorem noElseQ_of_ok (cfg : Cfg) (hc : cfg.rejectElse = true) : ∀ q, okQ cfg q = true → noElseQ q = true
+  | .equal l r, _ => rfl
+  | .call n a, _ => rfl
+  | .other k, h => by simp [okQ] at h
+  | .when c b ec eb, h => by
+    simp only [okQ, Bool.and_eq_true, hc, Bool.not_true, Bool.false_or] at h
+    have hb := noElseQs_of_ok cfg hc b h.1.1.1.2
+    simp [noElseQ, hb, h.2.1, h.2.2]
+theorem noElseQs_of_ok (cfg : Cfg) (hc : cfg.rejectElse = true) : ∀ qs, okQs cfg qs = true → noElseQs qs = true
+  | [], _ => rfl
+  | q :: qs, h => by
+    have h' : okQ cfg q = true ∧ okQs cfg qs = true := by simpa [okQs] using h
+    simp [noElseQs, noElseQ_of_ok cfg hc q h'.1, noElseQs_of_ok cfg hc qs h'.2]
+end
+
+theorem noElse_of_encode (cfg : Cfg) (hc : cfg.rejectElse = true) (m : Flat) (x : Xml)
+    (h : encode cfg m = some x) : noElse m = true := by
+  unfold encode at h
+  by_cases hok : m.classes.all (okCls cfg) = true
+  · unfold noElse
+    rw [List.all_eq_true] at hok ⊢
+    intro c hcm
+    have := hok c hcm
+    have h' : c.vars.all (okVar cfg) = true ∧ okQs cfg c.eqs = true := by simpa [okCls] using this
+    exact noElseQs_of_ok cfg hc c.eqs h'.2
+  · rw [if_neg hok] at h; cases h
 
 end PymocaVerif.XmlTree
